@@ -267,6 +267,10 @@ def cmp_(F, R):
                 # `if ticks_ordering != Ordering::Equal { return Some(ticks_ordering) }`
                 is_eq = bool_label(lab) if '::eq(' in desc else not bool_label(lab)
                 eqb = 'Equal' if is_eq else 'otherwise'
+            if ('Ordering::is_eq(' in desc or 'Ordering::is_ne(' in desc) and bool_label(lab) is not None:
+                # `if ticks_ordering.is_eq() { return self.fraction.partial_cmp(..) }`
+                is_eq = bool_label(lab) if 'is_eq(' in desc else not bool_label(lab)
+                eqb = 'Equal' if is_eq else 'otherwise'
         ret = str(p.ret)
         if ne is True:
             seen.add('different-clock')
